@@ -370,7 +370,9 @@ inline rc::Gen<Placement> genPlacement(bool micro_scale_too = true) {
             p.q[2] = *uniform(-1, 1);
             p.q[3] = *uniform(-1, 1);
         }
-        p.scale = micro_scale_too ? *rc::gen::element(1.0, 1.0, 1e-6, 1e-5, 3.7, 250.0) : *rc::gen::element(1.0, 1.0, 3.7, 0.21);
+        // the length unit is arbitrary: micrometres in metres are the shipped convention, nanometre features (face areas far below machine
+        // epsilon) and kilometres are as admissible
+        p.scale = micro_scale_too ? *rc::gen::element(1.0, 1.0, 1.0, 1e-6, 1e-6, 1e-5, 3.7, 250.0, 1e-8, 3e-9, 1e4) : *rc::gen::element(1.0, 1.0, 3.7, 0.21);
         p.mag_class = *irange(0, 4);
         static const double MAG[] = {0, 1.3, 10, 100, 1000};
         for (double& v : p.t) v = *uniform(-1, 1) * MAG[p.mag_class] * p.scale;
